@@ -102,3 +102,23 @@ LEVEL_TEXT.update({
     'C11': 'Theorems about the two text writers and the NUL-stripping reader for all widths, alignments and byte strings; the terminator clause is proved outside / refuted inside an explicit known class. Tied to the real encoder on every text field of every kind at lengths 0..2N incl. multi-codepage text.',
 })
 for k in ['C01','C03','C04','C11']: NOT_APPLICABLE.pop(k, None)
+
+PROPS.update({
+    'C14': dict(gens=['vehicle', 'track', 'consts', 'packets'], coq_targets=['Props/C14.vo'], coqchk_modules=['Props.C14'], group='wire', harness='c14', axioms_allowed=[],
+        proved=['for each of the 154 configurations (finite, stated): wire form = short code NUL-padded to 6 bytes and decoding it returns the configuration',
+                'for ALL byte strings: decode bs = i -> bs = encode i (no other value decodes to a configuration)',
+                'reversed <-> code ends R/Y; open <-> code ends X/Y; open => no lap distance; one licence per two-letter area; variant identifiers = codes; tables complete'],
+        modelled=['all seven tables (variants, read arms, write arms, code, licence, distance, reverse set, open set) are REGENERATED from track.rs on every run; Display = code() is pinned syntactically',
+                  'lookup semantics of the generated match (first matching 6-byte pattern, wildcard = NoVariantMatch) tied by correspondence on the exhaustive shaped space']),
+    'C15': dict(gens=['vehicle', 'track', 'consts', 'packets'], coq_targets=['Props/C15.vo'], coqchk_modules=['Props.C15'], group='wire', harness='c15', axioms_allowed=[],
+        proved=['scaled time fields, any width and scale: every wire value decodes to a duration that re-encodes to the same wire value; encoding = floor(ms/scale) or an error when it does not fit; the encoded value is exactly floor(ms/scale)',
+                'the time fields of the 73 regenerated layouts are 16/32-bit with 1 ms or 10 ms resolution',
+                'race-length byte: 0..238 re-encode exactly, 239..255 are practice; for ALL lap/hour counts the encoded byte is practice, the same count, or (100..1000 laps) the count rounded down to 10 - never another value',
+                'Small (hand-written): all 2^32 wire values of the 1/100 s and 1 ms sub-types round-trip, durations beyond the range are refused'],
+        modelled=WIRE_MODELLED, assumptions=['std::time::Duration::as_millis / from_millis are exact integer conversions (trusted)']),
+})
+LEVEL_TEXT.update({
+    'C14': 'Finite table facts by vm_compute over tables regenerated from track.rs, plus a uniqueness theorem over all byte strings; the real Track code is swept over the whole shaped space (2 007 720 strings) and compared with the model.',
+    'C15': 'Arithmetic theorems over N (no enumeration) for scaled durations of any width/scale, RaceLaps for all counts, and the Small conversions for all 2^32 values; the real conversions are run exhaustively over all 256 race-length bytes and all 65536 values of both 16-bit time resolutions, and boundary-biased over 32-bit fields.',
+})
+for k in ['C14','C15']: NOT_APPLICABLE.pop(k, None)
